@@ -110,6 +110,34 @@ def r1_no_soft_breaks_between_prose(w):
         r.ok(cons, 'paragraph break keeps its number of line feeds')
     else:
         r.bad(cons, 'collect_markup_repr|parbreak-count', 'a paragraph break is not recorded with the line-feed count of its own text (a constant would normalise blank lines)')
+    # a Space *inside* a line is kept whatever stands before it (seed C08/4A: the line was ended after a multi-line raw block without consuming
+    # whitespace, so the following Space met the `line is empty` arm that exists for the leading edge and was dropped): <X, Space> for every X
+    n_pairs = 0
+    for X in grammar.CHILDREN['Markup']:
+        if X in ('Space', 'Parbreak'):
+            continue
+        res = sm.evaluate_sequence(w, bs[0], 1, 'Markup', [Node('child', X), Node('child', 'Space', False)])
+        cons = {'stage': 'line collector', 'sequence': '<%s, Space>' % X}
+        if res is None:
+            r.bad(cons, 'collect_markup_repr|%s|space-after|not-evaluated' % X, 'sequence evaluation exceeded its bounds in collect_markup_repr')
+            continue
+        lost = 0
+        tot = 0
+        for loop, steps, assumed in res:
+            if len(steps) < 2:
+                continue
+            tot += 1
+            kept = any(isinstance(n, Node) and n.kind == 'Space' for n in sm.pushed_nodes(steps[1]))
+            if not kept:
+                lost += 1
+        n_pairs += 1
+        if tot and not lost:
+            r.ok(cons, 'the Space after a %s child is kept in the line on all %d paths' % (X, tot))
+        elif not tot:
+            r.bad(cons, 'collect_markup_repr|%s|space-after|not-evaluated' % X, 'no complete path for <%s, Space> in collect_markup_repr' % X)
+        else:
+            r.bad(cons, 'collect_markup_repr|%s|space-after' % X, 'in the markup line collector a Space that follows a %s child on the same line is not kept in the line on %d of %d paths '
+                  '(it is taken for the leading edge of the markup or dropped): the space between two pieces of prose disappears' % (X, lost, tot), bs[0].loc())
     cm = [b for b in w.core.find('::convert_markup_impl') if b.def_kind != 'Closure']
     v = BodyView(w, cm[0])
     ok = False
@@ -133,6 +161,9 @@ def r1_no_soft_breaks_between_prose(w):
         r.bad(cons, 'convert_markup_impl|line-end', 'line ends are not emitted as hardline repeated MarkupLine.breaks times (%s): a paragraph break would not keep its number of line feeds' % why_not, cm[0].loc())
     # "their own line-feed count": the count is taken by the text predicate, which has to count line breaks the way the lexer cut the tokens
     for ok, cons, key, why, loc in e2.linebreak_predicate_obligations(w):
+        (r.ok(cons, why) if ok else r.bad(cons, key, why, loc))
+    # children may be removed only where the per-kind rules can see it: no element-dropping adaptor in front of a loop over syntax nodes
+    for ok, cons, key, why, loc in e2.filter_obligations(w):
         (r.ok(cons, why) if ok else r.bad(cons, key, why, loc))
     return r
 
